@@ -76,13 +76,18 @@ class Interp:
     """one run = one body under one assumed variant of the subject operation"""
 
     def __init__(self, facts, variant_idx, subject_calls=("graphs::Node::get_operation",), depth=0, memo=None,
-                 call_models=None):
+                 call_models=None, subject_adt=OPERATION, site_values=None):
         self.facts = facts
         self.variant = variant_idx
         self.subject_calls = subject_calls
         self.depth = depth
         self.memo = memo if memo is not None else {}
         self.call_models = call_models or {}
+        self.subject_adt = subject_adt
+        # site_values: {(body id, bb): abstract value} forced results of particular call sites
+        self.site_values = site_values or {}
+        # forced: {body id: {local: abstract value}} -- every executable assignment to the local yields that value
+        self.forced = {}
 
     # -------------------------------------------------------------- evaluation
     def eval_place(self, env, place):
@@ -191,7 +196,7 @@ class Interp:
             v = self.eval_place(env, rv[1])
             if v == BOT:
                 return BOT
-            if v == SUBJ and rv[2] == OPERATION:
+            if v == SUBJ and rv[2] == self.subject_adt:
                 return ("i", self.variant)
             if v[0] == "enum":
                 return ("i", v[2])
@@ -205,6 +210,9 @@ class Interp:
         args = [self.eval_operand(env, a) for a in t["args"]]
         if any(a == BOT for a in args):
             return BOT
+        sv = self.site_values.get((body.id, bb))
+        if sv is not None:
+            return sv
         if name is None:
             return TOP
         if name in self.call_models:
@@ -273,7 +281,9 @@ class Interp:
         if key in self.memo:
             return self.memo[key]
         self.memo[key] = TOP  # recursion guard
-        sub = Interp(self.facts, self.variant, self.subject_calls, self.depth + 1, self.memo, self.call_models)
+        sub = Interp(self.facts, self.variant, self.subject_calls, self.depth + 1, self.memo, self.call_models,
+                     self.subject_adt, self.site_values)
+        sub.forced = self.forced
         res = sub.run(cb, {i + 1: a for i, a in enumerate(args)})
         self.memo[key] = res.ret
         return res.ret
@@ -291,8 +301,12 @@ class Interp:
         rounds = 0
         n = body.nblocks()
 
+        forced = self.forced.get(body.id, {})
+
         def assign(l, v):
             nonlocal changed
+            if l in forced and v != BOT:
+                v = forced[l]
             old = env.get(l, BOT)
             new = join(old, v)
             if new != old:
@@ -388,14 +402,25 @@ def variants(facts, adt=OPERATION):
     return [(v["idx"], v["name"]) for v in a["variants"]] if a else []
 
 
-def predicate_table(facts, fname, memo=None):
+def predicate_table(facts, fname, memo=None, adt=OPERATION):
     """variant name -> formatted abstract return value of a function of the subject operation"""
     b = facts.body(fname)
     if b is None:
         return None
     out = {}
-    for idx, name in variants(facts):
-        it = Interp(facts, idx, memo=memo)
+    for idx, name in variants(facts, adt):
+        it = Interp(facts, idx, memo=memo, subject_adt=adt, subject_calls=() if adt != OPERATION else ("graphs::Node::get_operation",))
         res = it.run(b, {1: SUBJ})
         out[name] = res.ret
     return out
+
+
+def executable_under(facts, body, site_values=None, forced=None, call_models=None, params=None):
+    """the part of `body` that can execute when particular call sites / locals are assumed to yield given values
+    (robust to how a guard is spelled: if / match / tuple patterns / let-bound booleans all lower to switches
+    on values the interpreter tracks)"""
+    it = Interp(facts, -1, subject_calls=(), subject_adt="<none>", site_values=site_values or {},
+                call_models=call_models or {})
+    if forced:
+        it.forced = {body.id: forced}
+    return it.run(body, params)
